@@ -3038,10 +3038,20 @@ class Partitions(Expr):
 
     def _simplify_down(self):
         from dask.dataframe.dask_expr import SetIndexBlockwise
+        from dask.dataframe.dask_expr._indexing import LocBase
         from dask.dataframe.tseries.resample import ResampleAggregation
 
         if isinstance(self.frame, Blockwise) and not isinstance(
-            self.frame, (BlockwiseIO, Fused, SetIndexBlockwise, ResampleAggregation)
+            self.frame,
+            (
+                BlockwiseIO,
+                Fused,
+                SetIndexBlockwise,
+                ResampleAggregation,
+                # output partition i of a label selection is not computed
+                # from input partition i
+                LocBase,
+            ),
         ):
             operands = [
                 (
